@@ -1,4 +1,29 @@
-(* placeholder *)
-From Coq Require Import ZArith.
-Theorem C01_placeholder : True. Proof. exact I. Qed.
-Print Assumptions C01_placeholder.
+(* C01 -- 32-bit instructions encode exactly as the RISC-V specification defines.
+   Statements only.  `encode` calls the GENERATED INSTRUCTIONS dictionary (Gen/Encoders.v, regenerated from
+   asm.py on every run); decode32 / denote32 / operands32 are the hand-written Spec. *)
+From Coq Require Import ZArith List String.
+From BB Require Import Base.PyBase Gen.Encoders Spec.RV32 Spec.Operands Model.Encode Proofs.Regs Proofs.C01Main.
+Open Scope Z_scope.
+
+(* Whatever operands (ints or strings, any integer immediate) the encoder of one of the 66 base mnemonics
+   accepts, the word is a 32-bit value that the Spec decodes to the very instruction the operands name. *)
+Theorem C01_decode_encode :
+  forall name pos kw w, In name base_mnemonics -> encode name pos kw = Ok w ->
+    0 <= w < 2^32 /\
+    exists ops i, operands32 name pos kw = Some ops /\ denote32 name ops = Some i /\ decode32 w = Some i.
+Proof. exact decode_encode. Qed.
+Print Assumptions C01_decode_encode.
+
+(* Two operand tuples of one mnemonic that give the same word name the same operands
+   (register spellings and the two documented lui/auipc spellings are identified by operands32). *)
+Theorem C01_injective :
+  forall name p1 k1 p2 k2 w, In name base_mnemonics ->
+    encode name p1 k1 = Ok w -> encode name p2 k2 = Ok w ->
+    exists ops, operands32 name p1 k1 = Some ops /\ operands32 name p2 k2 = Some ops.
+Proof. exact encode_injective. Qed.
+Print Assumptions C01_injective.
+
+(* A register operand is accepted exactly when it is a documented spelling, and then names that register. *)
+Theorem C01_registers : forall a n, lookup_register a false = Ok n <-> regnum a = Some n.
+Proof. exact lookup_register_spec. Qed.
+Print Assumptions C01_registers.
